@@ -23,6 +23,10 @@ Inductive case :=
      mutation + snapshotLocked (with the order the map iteration produced) and persist() of
      the i-th outstanding snapshot, interleaved at will; all snapshots persisted at the end *)
 | CaseSched (m0 wild0 w : list str) (steps : list sstep) (m1 wild1 : list str) (file : option str)
+  (* the background re-read of the directory (refreshRemote) landing between a call's
+     mutation and its persist(): memory and file before, the call with its return value,
+     memory and file after everything has completed *)
+| CaseRefresh (m0 wild0 w : list str) (file0 : option str) (o : op) (ret : N) (m1 wild1 : list str) (file1 : option str)
   (* restart: configured whitelist/blocklist + directory files in walk order -> memory of the fresh list;
      mem_m/mem_wild is the memory of the list that wrote the files *)
 | CaseReload (whitelist blocklist : list str) (files : list str) (mem_m mem_wild : list str) (re_m re_wild re_w : list str)
@@ -186,6 +190,17 @@ Definition check_case (c : case) : bool :=
       let '(ok, s) := run_sched steps (mk_sys (mk_bl m0 wild0 w) 0 0 None []) in
       ok && same_set (bm (s_mem s)) m1 && same_set (bwild (s_mem s)) wild1 &&
       is_nil (s_pending s) && opt_str_eqb (s_local s) file
+  | CaseRefresh m0 wild0 w file0 o ret m1 wild1 file1 =>
+      let s0 := mk_sys (mk_bl m0 wild0 w) 0 0 file0 [] in
+      let b' := snd (apply_op o (s_mem s0)) in
+      let '(ret', s1) := sys_mutate o (bm b') (bwild b') s0 in
+      let s3 := sys_persist 0 (sys_refresh s1) in
+      (ret =? ret') && same_set (bm (s_mem s3)) m1 && same_set (bwild (s_mem s3)) wild1 &&
+      match s_local s3, file1 with
+      | None, None => true
+      | Some a, Some f => if is_nil (s_pending s1) then str_eqb a f else file_is_snapshot (bm b') (bwild b') f
+      | _, _ => false
+      end
   | CaseReload whitelist blocklist files mem_m mem_wild re_m re_wild re_w =>
       let b := load_initial whitelist blocklist files in
       same_set (bm b) re_m && same_set (bwild b) re_wild && same_set (bw b) re_w
@@ -259,6 +274,10 @@ Definition spec_case (c : case) : bool :=
       | Some f => file_is_snapshot m1 wild1 f
       | None => negb (existsb (fun st => match st with SMut _ ex wi => negb (is_nil ex && is_nil wi) | _ => false end) steps)
       end
+  | CaseRefresh m0 wild0 w file0 o ret m1 wild1 file1 =>
+      (* every call has returned, nothing is in flight: the file is the memory *)
+      if ret =? 0 then opt_str_eqb file0 file1 && same_set m0 m1 && same_set wild0 wild1
+      else match file1 with Some f => file_is_snapshot m1 wild1 f | None => false end
   | CaseReload whitelist blocklist files mem_m mem_wild re_m re_wild re_w =>
       (* the reloaded list blocks exactly the names the memory that was persisted blocks *)
       same_set (whitelist_of whitelist) re_w &&
